@@ -35,6 +35,11 @@ that are consumed inside the critical section that created them, such as the ref
 used by the delete checks, are listed in `closureStateAccesses` and are not leaks.) -/
 theorem no_lazy_state_leaks : lazyStateLeaks = [] := by decide
 
+/-- The content a caller hands to `PushBlob` is read before the registry mutex is taken: no
+call consumes a caller-supplied `io.Reader` with a mutex held (the reader may block for as long as it
+likes, or call back into the registry — a copy within one registry — without stopping anyone else). -/
+theorem caller_content_read_outside_the_lock : readsCallerReaderUnderLock = [] := by decide
+
 /-! ## The concurrent model: every interleaving of atomic steps
 
 `H` (the content hash) is a parameter throughout; nothing is assumed about it. -/
